@@ -58,14 +58,22 @@ QTol == 30
 \* a gen bus holds the setpoint, unless the limit is enforced and the gens of the bus sit exactly at a limit.  (Which of the
 \* two limits is not prescribed by the property: the classical PV->PQ switching fixes every gen at the limit it violated in
 \* the iteration it was switched, which need not be the one that explains the final voltage deviation.)
+\* "Sits at the limit" refers to the CONVERGED STATE, not only to the reported number: the limit value is the injection the solved
+\* voltages and flows carry, i.e. the reactive nodal balance of the gen's (fused) bus closes with it.  The injection cannot be
+\* derived that way where a ZIP load under voltage_depend_loads shares the bus (its reported consumption is not the one the
+\* solver used: finding C01|C01_KCL_Q|zip_load_shares_bus) -- there only the reported value is required.
+IsConstPower(n) == C.inp[n].cz = 0 /\ C.inp[n].ci = 0
+QBalanced(k) == AbsI(InjClass(k, "q") + FlowClass(k, "q")) <= KclTol(k)
+ZipAt(k) == cfg.vdl /\ \E n \in {"ld0", "ld1", "ld2", "ld3"} : On(cfg, n) /\ Class(Node[n].bus) = k /\ ~IsConstPower(n)
+AtLimit(b) == /\ (AbsI(QSum(b) - QMax(b)) <= QTol \/ AbsI(QSum(b) - QMin(b)) <= QTol)
+              /\ (ZipAt(Class(b)) \/ QBalanced(Class(b)))
 C04_GenVoltageOrLimit == (C.conv /\ AC) => \A g \in Gens :
      \/ AbsI(Vm(GenBus(g)) - C.inp[g].vm) <= 2
-     \/ (cfg.qlims /\ (AbsI(QSum(GenBus(g)) - QMax(GenBus(g))) <= QTol \/ AbsI(QSum(GenBus(g)) - QMin(GenBus(g))) <= QTol))
+     \/ (cfg.qlims /\ AtLimit(GenBus(g)))
 C04_QWithinLimits == (C.conv /\ AC /\ cfg.qlims) => \A g \in Gens : C.node[g].q >= C.inp[g].qmin - QTol /\ C.node[g].q <= C.inp[g].qmax + QTol
 \* p * scaling for non-slack gens (not under distributed slack), sgens, constant-power loads, storages
 MulSc(p, sc) == WMul(WInt(p), WInt(sc))                      \* p [micro] * scaling [micro]
 EqScaled(res, p, sc) == WClose(WShift(WScale(WInt(res), 100), 1), MulSc(p, sc), 3000000, 5)      \* res * 10^6 = p * sc (3 micro abs)
-IsConstPower(n) == C.inp[n].cz = 0 /\ C.inp[n].ci = 0
 C04_PSetpoints == C.conv =>
      /\ \A g \in Gens : ~cfg.dslack => EqScaled(C.node[g].p, C.inp[g].p, C.inp[g].sc)
      /\ \A n \in {"sg0", "sg1", "st0"} : On(cfg, n) => (EqScaled(C.node[n].p, C.inp[n].p, C.inp[n].sc) /\ (AC => EqScaled(C.node[n].q, C.inp[n].q, C.inp[n].sc)))
